@@ -7,6 +7,7 @@ Oracle on the implementation alone: every task body entered exactly once, every 
 from vlib import common as C
 from props import pool_common as P
 
+DRIVERS = ['Pool']   # model driver files this check runs: scopes translator failures to the tables they (and the proofs) import
 TRUSTED = ['cfg(rws_verif) hooks in src/thread_pool/mod.rs (add-only; same statements compiled with the guard on and off)',
            'harness callback ordering: a worker that has just taken the lock waits for the previous holder\'s `r` event to be logged (linearises the log; see harness/src/ops/pool.rs)',
            'std::sync::{Mutex, mpsc} semantics as modelled (atomic lock, FIFO channel, blocking recv)']
